@@ -491,13 +491,13 @@ def check_C08(res, ctx):
     conccheck.check_merge_concurrent(res, ctx, rng_for(ctx.seed, "C08m"), [3] if ctx.quick else [1, 2, 3], 6 if ctx.quick else 40)
     conccheck.check_merge_model(res, ctx, rng_for(ctx.seed, "C08mm"), [2] if ctx.quick else [1, 2, 3], 6 if ctx.quick else 40)
     # readers of the last acknowledged key against a writer that rotates on almost every Put
-    for i in range(1 if ctx.quick else 6):
-        rep, err, rc = conccheck.run_race(ctx, 3 if ctx.quick else 15, 12, 1 + i % 3, i % 2, ctx.seed, race=False, mode="hot")
+    for i in range(3 if ctx.quick else 9):
+        rep, err, rc = conccheck.run_race(ctx, 2 if ctx.quick else 15, 12, 1 + i % 3, (i // 3) % 2, ctx.seed, race=False, mode="hot")
         res.evaluations += 1
         res.count("hot_reader_runs")
         if rep is None or rep.get("errors"):
             res.violation("Get of the last acknowledged key while the writer rotates (run %d): %s" % (i, json.dumps(rep)[:300] if rep else err[-300:]),
-                          {"cmd": "xkv race <dir> 3 12 %d %d %d hot" % (1 + i % 3, i % 2, ctx.seed), "report": rep})
+                          {"cmd": "xkv race <dir> 2 12 %d %d %d hot" % (1 + i % 3, (i // 3) % 2, ctx.seed), "report": rep})
         else:
             res.count("hot_gets", rep["counts"]["get"])
             res.distinct.add("hot%d" % i)
